@@ -291,7 +291,12 @@ func (cs *ContractSet) parseFile(path, pkgPath string) error {
 				fc.File, fc.PkgPath, fc.Line = path, pkgPath, rc.line
 				k := pkgPath + "#" + fc.Key
 				if fc.IsIface {
-					k = "iface#" + fc.Key
+					// interface-level contracts are assumptions about collaborators: scoped to the package whose contract
+					// file states them (several packages may state different ones), first one is also the global default
+					k = "iface#" + pkgPath + "#" + fc.Key
+					if _, have := cs.Funcs["iface#"+fc.Key]; !have {
+						cs.Funcs["iface#"+fc.Key] = fc
+					}
 				}
 				if _, dup := cs.Funcs[k]; dup {
 					return fail(fmt.Errorf("duplicate contract for %s", k))
